@@ -107,6 +107,7 @@ def _work(args):
         if off == 0 and len(agg["samples"]) < 1:
             agg["samples"].append({"case": case, "out": o})
         agg["slow"] = max(agg["slow"], r["_t"])
+        agg["cpu"] = agg.get("cpu", 0.0) + r["_t"]
     return secname, agg
 
 
@@ -190,6 +191,7 @@ class Run:
         s["nontrivial"] |= agg["nt"]
         s["skipped"] += agg["skips"]
         s["slowest_case_s"] = max(s["slowest_case_s"], agg["slow"])
+        s["case_time_s"] = s.get("case_time_s", 0.0) + agg.get("cpu", 0.0)
         for o, c in agg["outs"].items():
             s["outcomes"][o] = s["outcomes"].get(o, 0) + c
         for k, v in agg["extra"].items():
@@ -248,7 +250,7 @@ class Run:
         for n, s in self.sections.items():
             per[n] = {"evaluations": s["evaluations"], "states": len(s["states"]), "distinct_nontrivial": len(s["nontrivial"]),
                       "transitions": s["ops"], "skipped": s["skipped"], "distinct_outcomes": len(s["outcomes"]),
-                      "slowest_case_s": round(s["slowest_case_s"], 3)}
+                      "slowest_case_s": round(s["slowest_case_s"], 3), "case_time_total_s": round(s.get("case_time_s", 0.0), 1)}
             if s.get("desc"):
                 per[n]["what"] = s["desc"]
             if s["extra"]:
@@ -295,4 +297,5 @@ def _work_bfs(args):
         if off == 0 and start == 0:
             agg["samples"].append({"case": case, "out": o})
         agg["slow"] = max(agg["slow"], r["_t"])
+        agg["cpu"] = agg.get("cpu", 0.0) + r["_t"]
     return secname, agg, keys
